@@ -117,7 +117,7 @@ func checkC03(env *fw.Env, c C03Case) *fw.Failure {
 			if unk && semkit.IsConditionError(e2) {
 				classes = append(classes, "v2-condition-error-v1-decided")
 			} else {
-				return fw.Failf("", "Check(%s): the weighted-graph server failed (%v) although the default engine answered %v (reference %v, fell back=%v)\n%s", r, e2, a1, exp, fellBack, describe())
+				return fw.Failf(semkit.ClassifyV2Error(c.World, e2, unk), "Check(%s): the weighted-graph server failed (%v) although the default engine answered %v (reference %v, fell back=%v)\n%s", r, e2, a1, exp, fellBack, describe())
 			}
 			continue
 		}
